@@ -24,7 +24,9 @@ Record case := mkcase {
   c_camel : obs;                   (* From(content).ToCamel() *)
   c_snake : obs;                   (* From(content).ToSnake() *)
   c_rt : obs;                      (* From(From(content).ToCamel()).ToSnake() *)
-  c_untitle : obs                  (* From(content).UnTitle() *)
+  c_untitle : obs;                 (* From(content).UnTitle() *)
+  c_cfg : obs;                     (* config.NewConfig(tmpl): OOk cfg.NamingFormat | OErr 3 msg *)
+  c_cfgfmt : obs                   (* NewConfig(tmpl) then FileNamingFormat(cfg.NamingFormat, content); OErr 3 when NewConfig failed *)
 }.
 
 Definition ri_of (c : case) (r : N) : option rinfo := alookup N.eqb r (c_runes c).
@@ -78,7 +80,7 @@ Definition tables_ok (c : case) : bool :=
   let U := unicode_of c in
   let camel := match to_camel U (c_content c) with Ok s => s | _ => [] end in
   forallb (fun r => (r <? 128) || match ri_of c r with Some _ => true | None => false end)
-          (rune_error :: decode_all (c_content c) ++ decode_all camel) &&
+          (rune_error :: decode_all (c_content c) ++ decode_all camel ++ decode_all (c_tmpl c)) &&
   forallb (fun w => forallb (fun b => b <? 128) w || is_empty_or_space U w ||
                     match alookup str_eqb w (c_xt c) with Some _ => true | None => false end)
           (split_by U (fun r => r =? 95) true (c_content c)).
@@ -92,7 +94,9 @@ Definition model_ok (c : case) : bool :=
   res_matches (to_camel U (c_content c)) (c_camel c) &&
   res_matches (to_snake U (c_content c)) (c_snake c) &&
   res_matches (snake_of_camel U (c_content c)) (c_rt c) &&
-  res_matches (un_title U (c_content c)) (c_untitle c).
+  res_matches (un_title U (c_content c)) (c_untitle c) &&
+  res_matches (new_config U (c_tmpl c)) (c_cfg c) &&
+  res_matches (configured_format U (c_tmpl c) (c_content c)) (c_cfgfmt c).
 
 (* ---------- the property, on the observations alone ---------- *)
 Definition spec_ok (c : case) : bool :=
@@ -107,7 +111,18 @@ Definition spec_ok (c : case) : bool :=
   (* the conversions never fail or panic *)
   is_ok (c_camel c) && is_ok (c_snake c) && is_ok (c_rt c) &&
   (* camel case and back returns the identifier *)
-  (if is_ident (c_content c) then obs_eqb (c_rt c) (OOk (c_content c)) else true).
+  (if is_ident (c_content c) then obs_eqb (c_rt c) (OOk (c_content c)) else true) &&
+  (* through config.NewConfig the template reaches the renderer verbatim; only "" is the default;
+     whatever is not rendered is rejected with an error (by validate or by FileNamingFormat) *)
+  negb (is_panic (c_cfg c)) && negb (is_panic (c_cfgfmt c)) &&
+  match c_cfg c with
+  | OOk f => str_eqb f (effective_template (c_tmpl c))
+  | _ => true
+  end &&
+  match spec_configured U (c_tmpl c) (c_content c) with
+  | Some r => obs_eqb (c_cfgfmt c) (OOk r)
+  | None => is_err (c_cfgfmt c)
+  end.
 
 (* input classes, for the evidence's distribution (evaluated in Python from the same data) *)
 Definition accepts (c : case) : bool :=
